@@ -36,9 +36,13 @@ fn cmd(s: &mut Session, c: &str) -> (String, Stop) {
     (transcript(s.events_since(mark), Norm::STD), stop)
 }
 
-fn gen_prog(rng: &mut Rng, stop: bool) -> Prog {
-    let o = Opts { data: rng.chance(1, 3), func: rng.chance(1, 4), tron: false, stop, max_lines: 36 };
+fn gen_prog_in(rng: &mut Rng, stop: bool, input: bool) -> Prog {
+    let o = Opts { data: rng.chance(1, 3), func: rng.chance(1, 4), tron: false, stop, max_lines: 36, input, frac: rng.coin() };
     gen::generate(rng, o)
+}
+
+fn gen_prog(rng: &mut Rng, stop: bool) -> Prog {
+    gen_prog_in(rng, stop, false)
 }
 
 /// "IN <number>" -> "IN <label>" so that runs of differently numbered layouts compare equal.
@@ -372,28 +376,34 @@ impl Meta {
 
     // ------------------------------------------------------------------ C13
     fn c13(&self, rng: &mut Rng, ctx: &mut Ctx) {
-        let p = gen_prog(rng, true);
+        let with_input = rng.chance(1, 2);
+        let p = gen_prog_in(rng, true, with_input);
         let lines = gen::render(&p);
-        let text = lines.join("\n");
+        let replies = p.replies.clone();
+        let text = if replies.is_empty() { lines.join("\n") } else { format!("{}\n--- INPUT replies ---\n{}", lines.join("\n"), replies.join("\n")) };
         mon::journal(&text);
-        // reference: uninterrupted, default quantum; STOP/END are continued with CONT
-        let run_all = |q: usize, inspect: bool| -> Option<(String, String, u64)> {
-            let mut s = typed(&lines);
+        // complete run with quantum q; STOP/END are continued with CONT; INPUT prompts are answered
+        // from the reply script. Returns (transcript, final variables, execute calls).
+        let run_all = |lines: &[String], q: usize, inspect: bool| -> Option<(String, String, u64)> {
+            let mut s = typed(lines);
             s.quantum = q;
             let mark = s.mark();
             s.enter("RUN");
-            let mut out = String::new();
+            let mut out;
             let mut conts = 0;
             let mut steps = 0u64;
+            let mut used = 0usize;
             loop {
                 let before = s.calls;
-                let st = s.drain(2_000_000);
+                let st = drain_with_replies(&mut s, &replies, &mut used, 2_000_000);
                 steps += s.calls - before;
                 if st != Stop::Stopped {
                     return None;
                 }
-                let t = transcript(s.events_since(mark), Norm::STD);
-                out = t;
+                if used > replies.len() {
+                    return None;
+                }
+                out = transcript(s.events_since(mark), Norm::STD);
                 let pr = s.rt.verif_probe();
                 if pr.cont == "Stopped" || conts > 50 {
                     break;
@@ -411,18 +421,23 @@ impl Meta {
                 }
             }
             let pr = s.rt.verif_probe();
+            // a run that ran out of replies was interrupted at a prompt: not a complete run
+            if out.matches("<INPUT ").count() > replies.len() {
+                return None;
+            }
             Some((out, format!("{:?}", pr.vars), steps))
         };
-        let base = match run_all(5000, false) {
+        let base = match run_all(&lines, 5000, false) {
             Some(b) => b,
             None => {
-                ctx.count("discarded_budget");
+                ctx.count("discarded_budget_or_replies");
+                ctx.evals += 1;
                 return;
             }
         };
         // (1) quantum independence
         for q in [1usize, 2, 3, 7, 64] {
-            match run_all(q, false) {
+            match run_all(&lines, q, false) {
                 Some(r) => {
                     ctx.count("quantum_runs");
                     if r.0 != base.0 || r.1 != base.1 {
@@ -441,28 +456,145 @@ impl Meta {
                 }
             }
         }
-        // (2) interrupt after k instructions, inspect, CONT
-        // count instructions of the plain run (no CONT handling needed: stop at first stop)
-        let mut probe_s = typed(&lines);
-        probe_s.enter("RUN");
-        let mut total = 0u64;
-        while total < 6000 {
-            if probe_s.step_q(1).is_some() {
-                break;
+        // (1b) inspecting variables at every STOP / END does not disturb the run
+        if let Some(r) = run_all(&lines, 5000, true) {
+            ctx.count("inspect_runs");
+            if r.1 != base.1 || r.0.replace("READY.\n<STOPPED>", "") != base.0.replace("READY.\n<STOPPED>", "") {
+                ctx.violation(
+                    "inspect-disturbs",
+                    "cont:inspect",
+                    &format!("PRINT \"\"; typed at every stop changes the run: {}\nplain  : {:?}\ninspect: {:?}", first_diff(&base.0, &r.0), base.0, r.0),
+                    &text,
+                );
+                return;
             }
-            total += 1;
+        }
+        // (1c) STOP or END inserted at a statement boundary, continued with CONT
+        {
+            let mut q = p.clone();
+            let cands: Vec<usize> = q
+                .lines
+                .iter()
+                .enumerate()
+                .filter(|(_, l)| !matches!(l.sts.first(), Some(gen::St::Data(..)) | Some(gen::St::Def(..)) | None))
+                .map(|(i, _)| i)
+                .collect();
+            if !cands.is_empty() {
+                let li = *rng.pick(&cands);
+                let at = rng.usize(q.lines[li].sts.len() + 1);
+                // not behind a remark (the rest of the line is comment) and not behind IF (its arms own the rest)
+                let blocked = q.lines[li].sts[..at].iter().any(|s| matches!(s, gen::St::Rem(..) | gen::St::If(..)));
+                if !blocked {
+                    let what = if rng.coin() { gen::St::Stop } else { gen::St::End };
+                    let name = if what == gen::St::Stop { "STOP" } else { "END" };
+                    q.lines[li].sts.insert(at, what);
+                    let l2 = gen::render(&q);
+                    if let Some(r) = run_all(&l2, 5000, rng.coin()) {
+                        ctx.count("inserted_stop_end_runs");
+                        // without prompts, ?BREAK messages and line breaks (a stop forces one when the
+                        // cursor is not at the left margin)
+                        let norm = |t: &str| -> String {
+                            let t = t.replace("READY.\n<STOPPED>", "");
+                            let mut o = String::new();
+                            let mut rest: &str = &t;
+                            while let Some(i) = rest.find("?BREAK IN ") {
+                                o.push_str(&rest[..i]);
+                                rest = &rest[i + 10..];
+                                let d = rest.chars().take_while(|c| c.is_ascii_digit()).count();
+                                rest = &rest[d..];
+                            }
+                            o.push_str(rest);
+                            o.replace('\n', "")
+                        };
+                        // a program that already ends in the middle (STOP/END reached before the inserted
+                        // statement) compares equal trivially; that is fine
+                        if norm(&r.0) != norm(&base.0) || r.1 != base.1 {
+                            ctx.violation(
+                                "stop-not-transparent",
+                                &format!("cont:inserted-{}", name),
+                                &format!(
+                                    "{} inserted in line {} (statement {}), continued with CONT: output {:?}, without it {:?}; variables {} vs {}",
+                                    name,
+                                    q.num(q.lines[li].label),
+                                    at,
+                                    r.0,
+                                    base.0,
+                                    r.1,
+                                    base.1
+                                ),
+                                &format!("{}\n--- with {} ---\n{}", text, name, l2.join("\n")),
+                            );
+                            return;
+                        }
+                    }
+                }
+            }
+        }
+        // (2) interrupt after k execute(1) calls, inspect, CONT. INPUT prompts are answered before the
+        // next call, so k can also fall on a prompt that has not been answered yet.
+        // advance(s, k): Some(pending_prompt) when k calls were made without the program stopping
+        let advance = |s: &mut Session, k: u64, used: &mut usize| -> Option<bool> {
+            let mut pending = false;
+            let mut n = 0u64;
+            while n < k {
+                if pending {
+                    if *used >= replies.len() {
+                        return None;
+                    }
+                    let r = replies[*used].clone();
+                    *used += 1;
+                    s.enter(&r);
+                    pending = false;
+                }
+                match s.step_q(1) {
+                    Some(Stop::Input(..)) => pending = true,
+                    Some(Stop::Inkey) => {
+                        s.enter("");
+                    }
+                    Some(_) => return None,
+                    None => {}
+                }
+                n += 1;
+            }
+            Some(pending)
+        };
+        let mut total = 0u64;
+        {
+            let mut probe_s = typed(&lines);
+            probe_s.enter("RUN");
+            let mut used = 0usize;
+            let mut pending = false;
+            while total < 6000 {
+                if pending {
+                    if used >= replies.len() {
+                        break;
+                    }
+                    probe_s.enter(&replies[used].clone());
+                    used += 1;
+                    pending = false;
+                }
+                match probe_s.step_q(1) {
+                    Some(Stop::Input(..)) => pending = true,
+                    Some(_) => break,
+                    None => {}
+                }
+                total += 1;
+            }
         }
         if total >= 6000 || total < 5 {
             ctx.count("discarded_too_long_for_interrupt_sweep");
             ctx.evals += 1;
             return;
         }
-        let mut first = typed(&lines);
-        let mark0 = first.mark();
-        first.enter("RUN");
-        first.drain(CALLS);
-        let t_first = transcript(first.events_since(mark0), Norm::STD);
-        let v_first = format!("{:?}", first.rt.verif_probe().vars);
+        // the uninterrupted run up to its first stop
+        let (t_first, v_first) = {
+            let mut first = typed(&lines);
+            let mark0 = first.mark();
+            first.enter("RUN");
+            let mut used = 0usize;
+            drain_with_replies(&mut first, &replies, &mut used, CALLS);
+            (transcript(first.events_since(mark0), Norm::STD), format!("{:?}", first.rt.verif_probe().vars))
+        };
         let ks: Vec<u64> = if ctx.tier == Tier::Thorough || total <= 150 {
             (1..total).collect()
         } else {
@@ -476,22 +608,22 @@ impl Meta {
             let mut s = typed(&lines);
             let mark = s.mark();
             s.enter("RUN");
-            let mut n = 0;
-            let mut early = false;
-            while n < k {
-                if s.step_q(1).is_some() {
-                    early = true;
-                    break;
-                }
-                n += 1;
-            }
+            let mut used = 0usize;
+            let pending = match advance(&mut s, k, &mut used) {
+                Some(p) => p,
+                None => continue,
+            };
             let pr = s.rt.verif_probe();
-            if early || pr.state != "Running" {
+            if !matches!(pr.state, "Running" | "Input" | "InputRunning" | "InputRedo") {
                 continue;
             }
             if pr.pc >= pr.direct_address {
                 // still inside the direct RUN command itself: nothing to continue
                 continue;
+            }
+            ctx.cover("states_interrupted", pr.state);
+            if !pr.stack.is_empty() {
+                ctx.count("interrupts_with_values_on_the_stack");
             }
             s.interrupt();
             if s.drain(50) != Stop::Stopped {
@@ -505,7 +637,7 @@ impl Meta {
             }
             let mark2 = s.mark();
             s.enter("CONT");
-            s.drain(CALLS);
+            drain_with_replies(&mut s, &replies, &mut used, CALLS);
             let part2 = transcript(s.events_since(mark2), Norm::STD);
             tested += 1;
             // remove the ?BREAK message (and the line break it may have forced)
@@ -516,17 +648,25 @@ impl Meta {
                     return;
                 }
             };
-            let head = &part1[..cut];
+            let mut head = part1[..cut].to_string();
+            if pending {
+                // interrupted at a prompt that was shown but not answered: CONT shows it again
+                if let Some(i) = head.rfind("<INPUT ") {
+                    if head[i..].ends_with('>') && !head[i..].contains('\n') {
+                        head.truncate(i);
+                    }
+                }
+            }
             let joined_a = format!("{}{}", head, part2);
-            let joined_b = format!("{}{}", head.strip_suffix('\n').unwrap_or(head), part2);
+            let joined_b = format!("{}{}", head.strip_suffix('\n').unwrap_or(&head), part2);
             let vars = format!("{:?}", s.rt.verif_probe().vars);
             if (joined_a != t_first && joined_b != t_first) || vars != v_first {
                 ctx.violation(
                     "cont-not-transparent",
-                    "cont:interrupt",
+                    &format!("cont:interrupt:{}", pr.state),
                     &format!(
-                        "interrupt after {} of {} instructions then CONT: output {:?} + {:?}, uninterrupted {:?}; final variables {} vs {}",
-                        k, total, head, part2, t_first, vars, v_first
+                        "interrupt after {} of {} execute(1) calls (state {}) then CONT: output {:?} + {:?}, uninterrupted {:?}; final variables {} vs {}",
+                        k, total, pr.state, head, part2, t_first, vars, v_first
                     ),
                     &text,
                 );
